@@ -11,6 +11,7 @@ import (
 	goat "github.com/avos-io/goat"
 	"github.com/avos-io/goat/gen/goatorepo"
 	"github.com/avos-io/goat/internal"
+	"github.com/avos-io/goat/internal/server"
 	"google.golang.org/grpc"
 	"google.golang.org/grpc/metadata"
 )
@@ -29,8 +30,100 @@ func runC04(r *Run) {
 	if r.Want("pure") {
 		c04Pure(r)
 	}
+	if r.Want("uts") {
+		c04UnaryTransportStream(r)
+	}
 	if r.Want("e2e") {
 		c04EndToEnd(r)
+	}
+}
+
+// c04UnaryTransportStream drives the real unaryServerTransportStream (what grpc.SetHeader /
+// SendHeader / SetTrailer reach in a unary handler) with operation sequences over a small POOL of
+// metadata objects, so that the same object is handed in several times (to SetHeader and to
+// SetTrailer, before and after other calls) and its value slices have spare capacity — the usage
+// patterns under which a collector that shares storage with its caller goes wrong. The model joins
+// values; the lock-step compares what GetHeaders / GetTrailers return in the end.
+func c04UnaryTransportStream(r *Run) {
+	rng := r.Rand("c04.uts")
+	n := r.Scale(1500, 60000)
+	for i := 0; i < n; i++ {
+		pool := make([]metadata.MD, 2+rng.Intn(2))
+		ins := make([]string, len(pool))
+		for j := range pool {
+			md := metadata.MD{}
+			for _, k := range []string{"route", "k-bin", "x"}[:1+rng.Intn(3)] {
+				// value counts that leave spare capacity in the slice (3 of 4) or fill a spare slot exactly (1)
+				nv := []int{3, 1, 1, 2, 4, 3}[rng.Intn(6)]
+				if j == 0 && rng.Intn(2) == 0 {
+					nv = 3
+				}
+				for v := 0; v < nv; v++ {
+					if k == "k-bin" {
+						md.Append(k, genBinValue(rng))
+					} else {
+						md.Append(k, genTextValue(rng))
+					}
+				}
+			}
+			pool[j] = md
+			ins[j] = mdInput(md)
+		}
+		sts := server.NewUnaryServerTransportStream("/verif.Echo/Unary")
+		k := 1 + rng.Intn(6)
+		ops := make([]string, k)
+		rets := make([]string, k)
+		// the monitor's own bookkeeping: per key the values of the accepted calls in call order (deep copies)
+		wantH, wantT := map[string][]string{}, map[string][]string{}
+		sent := false
+		note := func(dst map[string][]string, md metadata.MD) {
+			for kk, vs := range md {
+				dst[kk] = append(dst[kk], append([]string(nil), vs...)...)
+			}
+		}
+		for j := 0; j < k; j++ {
+			p := rng.Intn(len(pool))
+			var err error
+			pick := rng.Intn(5)
+			if i%2 == 0 && j < 2 { // the same object first to the header and to the trailer collector
+				p, pick = 0, []int{0, 4}[j]
+			}
+			switch pick {
+			case 0, 1:
+				ops[j] = fmt.Sprintf("H%d", p)
+				if !sent {
+					note(wantH, pool[p])
+				}
+				err = sts.SetHeader(pool[p])
+			case 2:
+				ops[j] = fmt.Sprintf("S%d", p)
+				if !sent {
+					note(wantH, pool[p])
+				}
+				sent = true
+				err = sts.SendHeader(pool[p])
+			default:
+				ops[j] = fmt.Sprintf("T%d", p)
+				note(wantT, pool[p])
+				err = sts.SetTrailer(pool[p])
+			}
+			rets[j] = "ok"
+			if err != nil {
+				rets[j] = "err"
+			}
+		}
+		out := "hdr=" + mdCanon(sts.GetHeaders()) + "~tr=" + mdCanon(sts.GetTrailers()) + "~" + strings.Join(rets, ",")
+		r.Case("utsrun", strings.Join(ins, "#")+"|"+strings.Join(ops, "/"), out)
+		if mdCanon(sts.GetHeaders()) != mdCanon(wantH) || mdCanon(sts.GetTrailers()) != mdCanon(wantT) {
+			r.Violate("uts.collected", "ops", "headers/trailers collected for a unary handler differ from the values set, in call order", map[string]any{"pool": ins, "ops": ops}, out, "hdr="+mdCanon(wantH)+"~tr="+mdCanon(wantT))
+		}
+		r.CountN("uts.ops", k)
+		// the caller's own objects must not have been changed by the collector
+		for j := range pool {
+			if mdInput(pool[j]) != ins[j] {
+				r.Violate("uts.caller_md_changed", "ops", "a metadata object passed to SetHeader/SetTrailer was modified by the library", strings.Join(ops, "/"), mdInput(pool[j]), ins[j])
+			}
+		}
 	}
 }
 
